@@ -27,6 +27,10 @@ import (
 	"k8s.io/klog"
 )
 
+// impersonateHeaderPrefix is the common prefix of all impersonation headers
+// (Impersonate-User, Impersonate-Group, Impersonate-Extra-*, Impersonate-Uid, ...).
+const impersonateHeaderPrefix = "Impersonate-"
+
 type requestCanceler interface {
 	CancelRequest(*http.Request)
 }
@@ -67,6 +71,13 @@ func (rt *dynamicImpersonatingRoundTripper) WrapRequest(req *http.Request) (*htt
 	}
 
 	req = net.CloneRequest(req)
+	// nothing of the Impersonate-* family that the client sent may reach the
+	// upstream, only the headers generated below
+	for headerName := range req.Header {
+		if strings.HasPrefix(headerName, impersonateHeaderPrefix) {
+			req.Header.Del(headerName)
+		}
+	}
 	req.Header.Set(transport.ImpersonateUserHeader, requestor.GetName())
 
 	for _, group := range requestor.GetGroups() {
